@@ -54,6 +54,8 @@ RECURSIVE ParseCall(_, _)
 RECURSIVE ParseArgs(_, _, _)
 RECURSIVE ParseLeaf(_, _)
 RECURSIVE ParseBlock(_, _, _)
+RECURSIVE ParseDots(_, _, _)
+RECURSIVE ParsePath(_, _, _)
 
 \* ternary:  assignment [ ? expr [ : expr ] ]
 ParseExpr(ts, i) ==
@@ -75,8 +77,8 @@ ParseAssign(ts, i) ==
     ELSE IF ~IsOp(Tok(ts, lhs.i), "=") THEN lhs
     ELSE LET rhs == ParseExpr(ts, lhs.i + 1) IN
          IF ~rhs.ok THEN rhs
-         ELSE IF lhs.ast.k = "var"
-         THEN POk([k |-> "assign", name |-> lhs.ast.name, e |-> rhs.ast], rhs.i)
+         ELSE IF lhs.ast.k = "var" /\ lhs.ast.lvl = 0 /\ Len(lhs.ast.path) = 1
+         THEN POk([k |-> "assign", name |-> lhs.ast.path[1], e |-> rhs.ast], rhs.i)
          ELSE POk([k |-> "invalid"], rhs.i)        \* "invalid assignment destination" when evaluated
 
 ParseLevel(level, ts, i) ==
@@ -127,8 +129,8 @@ ParseCall(ts, i) ==
     ELSE IF ~IsOp(Tok(ts, f.i), "(") THEN f
     ELSE LET a == ParseArgs(ts, f.i + 1, <<>>) IN
          IF ~a.ok THEN PFail(a.i)
-         ELSE IF f.ast.k = "var"
-         THEN POk([k |-> "call", f |-> f.ast.name, args |-> a.ast], a.i)
+         ELSE IF f.ast.k = "var" /\ f.ast.lvl = 0 /\ Len(f.ast.path) = 1
+         THEN POk([k |-> "call", f |-> f.ast.path[1], args |-> a.ast], a.i)
          ELSE POk([k |-> "invalid"], a.i)          \* "expression is not callable" when evaluated
 
 \* arguments up to and including ")": returns ast = sequence of trees
@@ -147,12 +149,23 @@ ParseLeaf(ts, i) ==
             LET e == ParseExpr(ts, i + 1) IN
             IF ~e.ok THEN e
             ELSE IF ~IsOp(Tok(ts, e.i), ")") THEN PFail(e.i) ELSE POk(e.ast, e.i + 1)
-      [] t.k = "id" -> POk([k |-> "var", name |-> t.s], i + 1)
+      [] t.k = "id" \/ IsOp(t, ".") -> ParseDots(ts, i, 0)
       [] t.k = "num" -> POk([k |-> "num", text |-> t.text], i + 1)
       [] t.k = "str" -> POk([k |-> "str", src |-> t.text], i + 1)
       [] t.k = "true" -> POk([k |-> "bool", b |-> TRUE], i + 1)
       [] t.k = "false" -> POk([k |-> "bool", b |-> FALSE], i + 1)
       [] OTHER -> PFail(i)
+
+\* variable: leading dots (nesting level), then name { . name }
+ParseDots(ts, i, lvl) ==
+    IF IsOp(Tok(ts, i), ".") THEN ParseDots(ts, i + 1, lvl + 1)
+    ELSE LET p == ParsePath(ts, i, <<>>) IN
+         IF ~p.ok THEN p ELSE POk([k |-> "var", lvl |-> lvl, path |-> p.ast], p.i)
+
+ParsePath(ts, i, acc) ==
+    IF Tok(ts, i).k # "id" THEN PFail(i)
+    ELSE IF IsOp(Tok(ts, i + 1), ".") THEN ParsePath(ts, i + 2, Append(acc, Tok(ts, i).s))
+    ELSE POk(Append(acc, Tok(ts, i).s), i + 1)
 
 \* expressions separated by "," up to and including "}"
 ParseBlock(ts, i, acc) ==
